@@ -285,6 +285,10 @@ def module_source(cases, glob_src):
         lines.append(ind + "def f_%d(%s):" % (i, ", ".join(c.get("fparams", params))))
         lines.append(ind + "    return 1")
         lines.append(ind + "fs[%d] = f_%d" % (i, i))
+    lines.append("    def set_cl(v):")
+    lines.append("        nonlocal cl")
+    lines.append("        cl = v")
+    lines.append("    fs['set_cl'] = set_cl")
     lines.append("    return fs, plain")
     return "\n".join(lines) + "\n"
 
@@ -396,6 +400,8 @@ def special_value(v):
         return dict(("k%03d" % i, i) for i in range(int(v.split(":")[1])))
     if v.startswith("STRSET:"):
         return set("s%d" % i for i in range(int(v.split(":")[1])))
+    if v == "OBJLIST":
+        return [None, Obj(1, []), Obj(-5, [1])]
     if v == "BIGNEST":
         return [list(range(100)), "x" * 300, set("s%d" % i for i in range(30))]
     if v.startswith("NESTED:"):
@@ -548,12 +554,14 @@ def run_batch(cases, glob_src=DEFAULT_GLOB_SRC, closure_value=5, normalise_locat
             else:
                 fparams = c.get("fparams", params)
                 call_env = dict((k, v) for k, v in env.items() if k in fparams)
+                call_env.update(c.get("extra_kwargs", {}))          # passed through the function's **kw
                 env = dict(call_env)
                 v0 = (c.get("variants") or [{}])[0]
                 if "_ARGS" in params:
                     env["_ARGS"] = tuple(call_env[p] for p in fparams) if v0.get("positional") else ()
                 if "_KWARGS" in params:
-                    env["_KWARGS"] = {} if v0.get("positional") else dict(call_env)
+                    env["_KWARGS"] = {} if v0.get("positional") else dict(
+                        (k, call_env[k]) for k in (v0.get("order") or list(call_env.keys())) if k in call_env)
             ob = {"define": ["ok"]}
             del TICKS[:]
             orc = oracle(c["expr"], env, {"cl": closure_value}, glob)
@@ -622,6 +630,41 @@ def run_batch(cases, glob_src=DEFAULT_GLOB_SRC, closure_value=5, normalise_locat
                 ob["out"] = first
             norm = (lambda m: m.replace(sc.dir, "<DIR>").replace(mod_name, "<MOD>")) if normalise_location else (lambda m: m)
             ob["variant_msgs"] = [[m[0]] + [norm(x) if isinstance(x, str) else x for x in m[1:]] for m in msgs]
+            # the same condition violated again after the closure variable was re-bound (nonlocal)
+            if c.get("rebind_cl"):
+                ob["rebinds"] = []
+                for newv in c["rebind_cl"]:
+                    fs["set_cl"](newv)
+                    sub = {"define": ["ok"], "cl": newv, "args_rendered": ob["args_rendered"]}
+                    orc2 = oracle(c["expr"], env, {"cl": newv}, glob)
+                    sub["oracle_value_falsy"] = (orc2["exc"] is None and not orc2["value"])
+                    sub["oracle_exc"] = orc2["exc"]
+                    ev2 = []
+                    for k, v in orc2["evaluated"]:
+                        node = orc2["nodes"][k]
+                        try:
+                            rendered = a_repr.repr(v)
+                        except BaseException:  # noqa: B902
+                            rendered = None
+                        ev2.append({"k": k, "kind": type(node).__name__, "dump": ast.dump(node), "text": ast.unparse(node),
+                                    "rendered": rendered, "representable": _representable_value(v), "is_none": v is None,
+                                    "type": type(v).__name__, "in_comp": k in orc2["in_comp"], "in_fstring": k in orc2["in_fstring"],
+                                    "in_first_iter": k in orc2["in_first_iter"], "pos": None})
+                    sub["evaluated"] = ev2
+                    sub["nodes"] = [{"k": k, "dump": ast.dump(nd), "kind": type(nd).__name__, "in_comp": k in orc2["in_comp"],
+                                     "text": ast.unparse(nd)} for k, nd in enumerate(orc2["nodes"])]
+                    try:
+                        _call(fs[i], call_env, {}, c.get("fparams", params))
+                        sub["out"] = ["ret"]
+                    except icontract.ViolationError as e:
+                        sub["out"] = ["ViolationError"]
+                        _l, _h, entries2, raw2 = parse_message(str(e), c["expr"])
+                        sub["entries"] = entries2
+                        sub["message"] = raw2
+                    except BaseException as e:  # noqa: B902
+                        sub["out"] = [type(e).__name__, str(e)[:200]]
+                    ob["rebinds"].append(sub)
+                fs["set_cl"](closure_value)
             rv = RecordingVisitor.last
             if rv is not None:
                 rec = []
